@@ -64,7 +64,9 @@ class ExprMixin(object):
             return a
         if isinstance(a, V) and isinstance(b, V):
             if a.t.eq(b.t):
-                return a if a.hint is not None else b
+                if a.hint is b.hint or repr(a.hint) == repr(b.hint):
+                    return a
+                return V(a.t, self.join_hints(a.hint, b.hint))
             hint = a.hint if (a.hint is b.hint or repr(a.hint) == repr(b.hint)) else self.join_hints(a.hint, b.hint)
             return V(Ite(c, a.t, b.t), hint)
         if isinstance(a, PyTuple) and isinstance(b, PyTuple) and len(a.items) == len(b.items):
@@ -135,6 +137,8 @@ class ExprMixin(object):
             return fn_then(st)
         if z3.is_false(cond):
             return fn_else(st)
+        if getattr(self, 'trace_branches', None) is not None and not any(getattr(f, 'spec_mode', False) for f in self.frames):
+            self.trace_branches.append((getattr(self, 'cur_line', 0), self.frame().func_name if self.frames else '', cond, st.guard))
         sa = st.copy()
         sa.guard = And(st.guard, cond)
         sb = st.copy()
@@ -638,6 +642,7 @@ class ExprMixin(object):
         spec = field_spec(classes, name) if classes else None
         if spec is not None:
             self.assume(st, spec.assumption(t))
+            self.assume_class_invariants(st, t, spec)
         if spec is None or spec.kind in ('obj', 'list', 'dict', 'set', 'tuple', 'any', 'union'):
             self.known_ref(st, t)
         return V(t, spec)
